@@ -17,7 +17,7 @@ def line_svd(SD, f):
     return U, s
 
 
-def svalsvec_tables(SD, upto=None):
+def svalsvec_tables(SD, upto=None, init=None):
     """line-major tables as the loop fills them: rows < upto hold the decomposition of that line, later rows the
     allocation's contents"""
     nr, nc, nf = SD.shape
@@ -41,13 +41,20 @@ def svalsvec_tables(SD, upto=None):
         c = cur()
         c.numpy_mode += 1
         try:
-            return sym.ite(And_(done(k), sym.eq(a, b)), sym.sqrt_(line_svd(SD, k)[1].get(a)), zero)
+            filled = sym.ite(sym.eq(a, b), sym.sqrt_(line_svd(SD, k)[1].get(a)), zero)
+            if upto is None:
+                return filled
+            # lines not reached yet hold whatever the allocation (np.empty) held
+            return sym.ite(done(k), filled, init["S_val"](idx))
         finally:
             c.numpy_mode -= 1
 
     def s_vec(idx):
         k, i, j = idx[0][0], idx[1][0], idx[2][0]
-        return sym.ite(done(k), sym.conj_(sym.toC(line_svd(SD, k)[0].get(j, i))), czero)
+        filled = sym.conj_(sym.toC(line_svd(SD, k)[0].get(j, i)))
+        if upto is None:
+            return filled
+        return sym.ite(done(k), filled, init["S_vec"](idx))
     return {"Sval": Arr(((nf,), (nc,)), sval, "float"), "S_val": Arr(((nf,), (nc,), (nc,)), s_val, "float"),
             "S_vec": Arr(((nf,), (nr,), (nr,)), s_vec, "complex")}
 
@@ -58,7 +65,7 @@ class SD_svalsvec(Contract):
     props = ("C06",)
     generic_replay = False
     bounded_driver = {"driver": "c06_fdd", "inputs": {}}
-    loops = {0: LoopSpec(lambda k, pre, it: svalsvec_tables(pre["SD"], k))}
+    loops = {0: LoopSpec(lambda k, pre, it: svalsvec_tables(pre["SD"], k, {"S_val": pre["S_val"].snapshot_fn(), "S_vec": pre["S_vec"].snapshot_fn()}))}
 
     def witness(self, o):
         return dict(self.bounded_driver)
